@@ -60,7 +60,7 @@ static bool s_delete_file_or_directory(const struct aws_directory_entry *entry, 
     struct aws_string *path_str = aws_string_new_from_cursor(allocator, &entry->relative_path);
     int ret_val = AWS_OP_SUCCESS;
 
-    if (entry->file_type & AWS_FILE_TYPE_FILE) {
+    if (entry->file_type & (AWS_FILE_TYPE_FILE | AWS_FILE_TYPE_SYM_LINK)) {
         ret_val = aws_file_delete(path_str);
     }
 
